@@ -2,6 +2,7 @@
 package c08
 
 import (
+	"os"
 	"bytes"
 	"encoding/base64"
 	"fmt"
@@ -9,6 +10,7 @@ import (
 	"time"
 
 	"Havoc/pkg/agent"
+	"Havoc/pkg/packager"
 
 	"verifmc/demonwire"
 	"verifmc/ev"
@@ -202,6 +204,9 @@ func checkDown(r *ev.Run, w *world, shape string) {
 	for ti := 1; ti < len(w.nodes); ti++ {
 		if w.nodes[ti].parent < 0 {
 			continue // a second direct agent (link-history worlds)
+		}
+		if a := w.ts.Agent(w.nodes[ti].id); a != nil && !a.Active {
+			continue // marked dead by the operator: such a session is not tasked (it may still relay)
 		}
 		path := w.path(ti)
 		root := path[len(path)-1]
@@ -473,6 +478,71 @@ func runLinkHistory(r *ev.Run) {
 		w.ts.CheckIn(ids[0], w.nodes[0].k)
 		w.ts.CheckIn(ids[1], w.nodes[1].k)
 		checkDown(r, w, "history: after the former parent's late disconnect report")
+		// B reports that C went away and, later, that it is back (a reconnect of an existing
+		// agent: C is linked below B again; its "disconnected" flag is only cleared by its next
+		// check-in callback).  Then a new agent E links below C.  Tasks for D and E go B -> C -> ...
+		dd := &demonwire.W{}
+		dd.I32(agent.DEMON_PIVOT_SMB_DISCONNECT).I32(1).I32(ids[2])
+		w.send(1, demonwire.Sub{Cmd: agent.COMMAND_PIVOT, Body: dd.B})
+		rc := &demonwire.W{}
+		rc.I32(agent.DEMON_PIVOT_SMB_CONNECT).I32(1).Bytes(inner)
+		if res := w.send(1, demonwire.Sub{Cmd: agent.COMMAND_PIVOT, Body: rc.B}); res.Panic != nil {
+			r.Violate("history/panic/reconnect-after-disconnect", fmt.Sprint(res.Panic), nil)
+		}
+		if c := w.ts.Agent(ids[2]); c == nil || c.Pivots.Parent == nil || c.Pivots.Parent.NameID != fmt.Sprintf("%08x", ids[1]) {
+			r.Violate("history/reconnect-not-applied", "B's second connect naming C did not link C below B again", map[string]any{"ids": fmt.Sprintf("%08x", ids)})
+			w.ts.Close()
+			continue
+		}
+		w.ts.CheckIn(ids[1], w.nodes[1].k)
+		checkDown(r, w, "history: after C was disconnected and reconnected below B")
+		idE := ids[2] ^ 0x00010000
+		w.nodes = append(w.nodes, node{id: idE, k: 9, parent: 2})
+		ke, ive := w.key(len(w.nodes) - 1)
+		eb := &demonwire.W{}
+		eb.I32(agent.DEMON_PIVOT_SMB_CONNECT).I32(1).Bytes(demonwire.Register(idE, ke, ive, demonwire.DefaultMeta(idE)))
+		if res := w.send(2, demonwire.Sub{Cmd: agent.COMMAND_PIVOT, Body: eb.B}); res.Panic != nil {
+			r.Violate("history/panic/connect-behind-reconnected-hop", fmt.Sprint(res.Panic), nil)
+		}
+		if e := w.ts.Agent(idE); e == nil {
+			w.nodes = w.nodes[:len(w.nodes)-1]
+			r.Outcome("history/registration-behind-reconnected-hop-not-accepted")
+		} else {
+			w.ts.CheckIn(ids[1], w.nodes[1].k)
+			checkDown(r, w, "history: new agent behind the reconnected hop")
+			// the operator marks C dead (the session is flagged and unlinked, the implant keeps
+			// relaying); a further agent F links below C meanwhile; then B reports C again
+			// (reconnect).  Tasks for F go B -> C -> F.
+			w.ts.T.DispatchEvent(packager.Package{Head: packager.Head{Event: packager.Type.Session.Type, User: "op1"}, Body: packager.Body{SubEvent: packager.Type.Session.MarkAsDead, Info: map[string]any{"AgentID": fmt.Sprintf("%08x", ids[2]), "Marked": "Dead"}}})
+			idF := ids[2] ^ 0x00020000
+			w.nodes = append(w.nodes, node{id: idF, k: 10, parent: 2})
+			kf, ivf := w.key(len(w.nodes) - 1)
+			fb := &demonwire.W{}
+			fb.I32(agent.DEMON_PIVOT_SMB_CONNECT).I32(1).Bytes(demonwire.Register(idF, kf, ivf, demonwire.DefaultMeta(idF)))
+			w.send(2, demonwire.Sub{Cmd: agent.COMMAND_PIVOT, Body: fb.B})
+			rc2 := &demonwire.W{}
+			rc2.I32(agent.DEMON_PIVOT_SMB_CONNECT).I32(1).Bytes(inner)
+			w.send(1, demonwire.Sub{Cmd: agent.COMMAND_PIVOT, Body: rc2.B})
+			c, f := w.ts.Agent(ids[2]), w.ts.Agent(idF)
+			if f == nil || c == nil || c.Pivots.Parent == nil || c.Pivots.Parent.NameID != fmt.Sprintf("%08x", ids[1]) {
+				// the teamserver did not take the registration / the reconnect: nothing to route
+				w.nodes = w.nodes[:len(w.nodes)-1]
+				r.Outcome("history/link-behind-dead-marked-hop-not-accepted")
+			}
+			w.ts.CheckIn(ids[1], w.nodes[1].k)
+			if os.Getenv("VERIF_C08_DEBUG") != "" {
+				for _, x := range []uint32{idE, idF} {
+					if e := w.ts.Agent(x); e != nil {
+						pn := "nil"
+						if e.Pivots.Parent != nil {
+							pn = e.Pivots.Parent.NameID + fmt.Sprintf("(active=%v)", e.Pivots.Parent.Active)
+						}
+						fmt.Fprintf(os.Stderr, "DBG %08x parent=%s active=%v\n", x, pn, e.Active)
+					}
+				}
+			}
+			checkDown(r, w, "history: agents linked below a hop while it was marked dead, after its reconnect")
+		}
 		w.ts.Close()
 	}
 }
